@@ -145,6 +145,7 @@ HELPER_REF = {
     "le": lambda x, v: x <= v,
     "is_in": lambda x, c: x in c,
     "one_of": lambda x, v: x in (v,),
+    "anyarg": lambda x, v: True,
 }
 
 PARTIAL_WHEN = {
